@@ -570,3 +570,108 @@ def inline_single_assignment_locals(fn: ast.AST) -> ast.AST:
                                                               and st.targets[0].id == name)]
     ast.fix_missing_locations(fn2)
     return fn2
+
+
+
+def lossy_groupings(idx, fi: FuncInfo) -> List[Tuple[ast.AST, str]]:
+    """itertools.groupby(X, key) collected into a dict (one entry per key) although X is not sorted by that key: groupby only merges ADJACENT
+    items, so for a key that occurs in several runs the dict keeps the last run and silently drops the others.  [(node, explanation)]"""
+    out: List[Tuple[ast.AST, str]] = []
+    for n in ast.walk(fi.node):
+        if not (isinstance(n, ast.Call) and n.args):
+            continue
+        f = n.func
+        nm = f.id if isinstance(f, ast.Name) else (f.attr if isinstance(f, ast.Attribute) else None)
+        if nm != 'groupby':
+            continue
+        ext = idx.ext_name(fi.module, f)
+        if ext not in ('itertools.groupby',):
+            continue
+        src = n.args[0]
+        is_sorted = isinstance(src, ast.Call) and isinstance(src.func, ast.Name) and src.func.id == 'sorted'
+        if is_sorted:
+            continue
+        # collected into a mapping?
+        into_dict = False
+        for m in ast.walk(fi.node):
+            if isinstance(m, ast.DictComp) and any(g.iter is n for g in m.generators):
+                into_dict = True
+            if isinstance(m, ast.Call) and isinstance(m.func, ast.Name) and m.func.id == 'dict' and m.args and (
+                    m.args[0] is n or (isinstance(m.args[0], (ast.GeneratorExp, ast.ListComp)) and any(g.iter is n for g in m.args[0].generators))):
+                into_dict = True
+        if into_dict:
+            out.append((n, f'`{norm(n)[:70]}` is collected into a dict but `{norm(src)[:40]}` is not sorted by the grouping key: groupby merges only adjacent items, '
+                           f'so when items of one group are interleaved with others the dict keeps the last run and drops the earlier ones'))
+    return out
+
+
+def unhashable_classes(idx) -> Dict[str, str]:
+    """Class name -> why its instances cannot be hashed: a dataclass with generated __eq__ that is neither frozen nor unsafe_hash, or a class that
+    defines __eq__ without __hash__ (Python then sets __hash__ to None) - inherited along the bases inside the package."""
+    out: Dict[str, str] = {}
+    by_name = {}
+    for ci in idx.classes.values():
+        by_name.setdefault(ci.name, ci)
+    for ci in idx.classes.values():
+        node = ci.node
+        if not isinstance(node, ast.ClassDef):
+            continue
+        has_hash = any(isinstance(n, ast.FunctionDef) and n.name == '__hash__' for n in node.body) or any(
+            isinstance(n, ast.Assign) and any(isinstance(t, ast.Name) and t.id == '__hash__' for t in n.targets) for n in node.body)
+        if has_hash:
+            continue
+        for d in node.decorator_list:
+            dn = norm(d.func if isinstance(d, ast.Call) else d)
+            if dn.split('.')[-1] == 'dataclass':
+                kws = {k.arg: k.value for k in d.keywords} if isinstance(d, ast.Call) else {}
+
+                def truthy(k):
+                    return isinstance(kws.get(k), ast.Constant) and bool(kws[k].value)
+                eq_off = isinstance(kws.get('eq'), ast.Constant) and kws['eq'].value is False
+                if not eq_off and not truthy('frozen') and not truthy('unsafe_hash'):
+                    out[ci.name] = 'a dataclass with generated __eq__ that is not frozen'
+        if ci.name not in out and any(isinstance(n, ast.FunctionDef) and n.name == '__eq__' for n in node.body):
+            out[ci.name] = 'it defines __eq__ without __hash__'
+    changed = True
+    while changed:
+        changed = False
+        for ci in idx.classes.values():
+            if ci.name in out or not isinstance(ci.node, ast.ClassDef):
+                continue
+            if any(isinstance(n, ast.FunctionDef) and n.name in ('__hash__', '__eq__') for n in ci.node.body):
+                continue
+            for b in ci.node.bases:
+                bn = b.id if isinstance(b, ast.Name) else (b.attr if isinstance(b, ast.Attribute) else None)
+                if bn in out and bn in by_name:
+                    out[ci.name] = f'its base {bn} is unhashable ({out[bn]})'
+                    changed = True
+                    break
+    return out
+
+
+def annotation_element_classes(ann: Optional[ast.AST]) -> Optional[Set[str]]:
+    """Element class names of a collection annotation (List[X], Optional[List[Union[X, Y]]], Tuple[X, ...]); None if it is not a collection annotation."""
+    if ann is None:
+        return None
+    if isinstance(ann, ast.Constant) and isinstance(ann.value, str):
+        try:
+            ann = ast.parse(ann.value, mode='eval').body
+        except SyntaxError:
+            return None
+
+    def names(e) -> Set[str]:
+        out: Set[str] = set()
+        for x in ast.walk(e):
+            if isinstance(x, ast.Name):
+                out.add(x.id)
+            elif isinstance(x, ast.Attribute):
+                out.add(x.attr)
+            elif isinstance(x, ast.Constant) and isinstance(x.value, str) and x.value.isidentifier():
+                out.add(x.value)
+        return out
+    for x in ast.walk(ann):
+        if isinstance(x, ast.Subscript):
+            head = x.value.id if isinstance(x.value, ast.Name) else (x.value.attr if isinstance(x.value, ast.Attribute) else '')
+            if head in ('List', 'list', 'Tuple', 'tuple', 'Sequence', 'Iterable', 'Set', 'set', 'Collection'):
+                return names(x.slice) - {'Union', 'Optional', 'List', 'Tuple'}
+    return None
